@@ -36,6 +36,10 @@ pub struct Caller {
     /// the call future is created at `at` (poll_ready + call) but first polled this many ms later
     #[serde(default)]
     pub poll_delay: u64,
+    /// the handle is additionally polled for readiness this many ms before the call (a ready
+    /// handle kept in a pool or balancer until the request comes)
+    #[serde(default)]
+    pub ready_early: u64,
 }
 
 #[derive(Clone, Debug, Serialize, Deserialize)]
@@ -82,14 +86,16 @@ fn case_strategy(tier: Tier) -> BoxedStrategy<BhCase> {
             2 => (1u64..=100).prop_map(Some),
         ],
         prop_oneof![6 => Just(0u64), 1 => 1u64..=3, 1 => (1u64..=3).prop_map(|k| k * 10)],
+        prop_oneof![5 => Just(0u64), 1 => 1u64..=40, 1 => (1u64..=8).prop_map(|k| k * 10)],
     )
-        .prop_map(|(at, clone, svc2, step, cancel_after, poll_delay)| Caller {
+        .prop_map(|(at, clone, svc2, step, cancel_after, poll_delay, ready_early)| Caller {
             at,
             clone,
             svc2,
             step,
             cancel_after,
             poll_delay,
+            ready_early,
         });
     (
         1..=max_hi,
@@ -261,6 +267,7 @@ async fn interp(case: &BhCase) -> Verdict {
         (0..n).map(|_| None).collect();
     let fp: Vec<u64> = case.callers.iter().map(|c| c.at + c.poll_delay).collect();
     let mut saw_delayed_poll = false;
+    let mut saw_ready_early = false;
     let mut saw_full_with_queue = false;
     let mut saw_cancel_queued = false;
     let mut saw_cancel_running = false;
@@ -288,6 +295,15 @@ async fn interp(case: &BhCase) -> Verdict {
             }
             ([in_flight_of(l, false), in_flight_of(l, true)], w)
         });
+        // handles polled for readiness ahead of their call
+        for c in case.callers.iter() {
+            if c.ready_early > 0 && c.at > 0 && c.at.saturating_sub(c.ready_early) == t && c.at != t {
+                let k = (c.clone % case.clones) as usize;
+                let s = if c.svc2 { &mut clones2[k] } else { &mut clones1[k] };
+                let _ = futures::future::poll_fn(|cx| s.poll_ready(cx)).await;
+                saw_ready_early = true;
+            }
+        }
         // arrivals
         let mut arrivals_now: [Vec<usize>; 2] = [vec![], vec![]];
         for (i, c) in case.callers.iter().enumerate() {
@@ -659,6 +675,9 @@ async fn interp(case: &BhCase) -> Verdict {
     }
     if case.hold.is_some() {
         v.classes.push("resolved_future_kept_alive");
+    }
+    if saw_ready_early {
+        v.classes.push("handle_ready_before_the_call");
     }
     v.nontrivial_c01 = saw_full_with_queue
         && (saw_cancel_queued || saw_cancel_running || saw_panic || saw_release_and_arrival);
